@@ -322,6 +322,24 @@ class InjectedFault(Exception):
     pass
 
 
+class InjectedKeyboardInterrupt(KeyboardInterrupt):
+    pass
+
+
+class InjectedSystemExit(SystemExit):
+    pass
+
+
+class InjectedBaseException(BaseException):
+    """a BaseException that is not an Exception (like asyncio.CancelledError / GeneratorExit)"""
+
+
+# class of the injected exception: what `except:` catches and `except Exception:` does not
+FAULT_KINDS = {"exception": InjectedFault, "keyboard": InjectedKeyboardInterrupt, "systemexit": InjectedSystemExit,
+               "base": InjectedBaseException}
+INJECTED = tuple(FAULT_KINDS.values())
+
+
 # ------------------------------------------------------------------------------- ops -> real calls
 
 def existing_type_of(o):
@@ -395,7 +413,7 @@ def apply_op(b, o):
 def exc_kind(e):
     n = type(e).__name__
     msg = str(e)
-    if isinstance(e, InjectedFault):
+    if isinstance(e, INJECTED):
         return "injected"
     if n == "IntegrityError":
         if "NOT NULL" in msg:
@@ -479,7 +497,7 @@ class Db:
             shutil.rmtree(self.dir, ignore_errors=True)
 
 
-def run_batch(db, ops, recreate="always", copy_from=False, fault=None, scope="none", universe=(), tddl=None):
+def run_batch(db, ops, recreate="always", copy_from=False, fault=None, scope="none", universe=(), tddl=None, fkind="exception"):
     """Runs the real batch_alter_table.  scope: 'none' (connection not in a transaction: flush opens one
     through _ensure_scope_for_ddl), 'outer' (caller's `with conn.begin()`, rolled back by the exception),
     'swallow' (caller's transaction, exception caught inside it, transaction committed).
@@ -500,7 +518,7 @@ def run_batch(db, ops, recreate="always", copy_from=False, fault=None, scope="no
             i = n[0]
             n[0] += 1
             if fault is not None and i == fault:
-                raise InjectedFault("injected at statement %d" % i)
+                raise FAULT_KINDS[fkind]("injected at statement %d" % i)
 
         event.listen(conn, "before_cursor_execute", bce)
         # tddl: the `transactional_ddl` option of the context (None = dialect default, False on SQLite)
@@ -532,7 +550,11 @@ def run_batch(db, ops, recreate="always", copy_from=False, fault=None, scope="no
                             body()
                         except Exception as e:
                             outcome = exc_kind(e)
+                        except INJECTED as e:      # our own BaseException kinds only: a genuine Ctrl-C still propagates
+                            outcome = exc_kind(e)
             except Exception as e:
+                outcome = exc_kind(e)
+            except INJECTED as e:
                 outcome = exc_kind(e)
         event.remove(conn, "before_cursor_execute", bce)
         if conn.in_transaction():
